@@ -1,5 +1,6 @@
 """Implementation side of C10: histories on one section (properties, values, dict protocol)."""
 import gc
+import zlib
 import json
 import os
 import struct
@@ -115,14 +116,15 @@ def main():
         # alternate between the objects; after every call both sections must show the same state
         secs = [sec, f.sections["s"]]
         kept = {}
+        par = zlib.crc32(json.dumps(ops, sort_keys=True).encode())
 
         def prop(name):
             fresh = sec.props[name]
             old = kept.setdefault(name, fresh)
-            return old if (nop + k) % 3 == 0 else fresh
+            return old if (nop + par) % 3 == 0 else fresh
         for nop, op in enumerate(ops):
             t = op[0]
-            sec = secs[(nop + k) % 2]
+            sec = secs[(nop + par) % 2]
             try:
                 if t == "create":
                     sec.create_property(NAMES[op[1]], [dec(v) for v in op[2]] if not op[3] else dec(op[2][0]))
